@@ -56,6 +56,10 @@ def build_impl(rep, profiles=("release",), engine=False):
     try:
         for p in profiles:
             core.cargo_harness(p)
+        if core.HARNESS_NO_UCI and rep.pid in ("C12", "C15") and getattr(rep, "broken", None) is None:
+            # these two properties are ABOUT `position`; the stand-in of the fallback build is not the code under test
+            rep.broken = core.Broken("build", "harness:uci.rs-include (private names of uci.rs changed; `position` is not tied in-process)",
+                                     core.HARNESS_NO_UCI[0])
         if engine:
             core.cargo_engine()
         return True
